@@ -117,9 +117,11 @@ DetOK(e) == ~Panicked(e) /\ e.res = ExpDet(e)
 
 \* Wiedemann: the value is the determinant; a reported 0 for a non-singular matrix is the routine's
 \* documented degenerate case (minimal polynomial of the Krylov sequence of degree < n), see Degenerate
-SparseDetOK(e) == ~Panicked(e) /\ (e.res = ExpDet(e) \/ e.res = IZero)
+\* (the property's own statement: the sparse determinant agrees with the exact one; the degenerate zeros are a
+\* genuine, recorded defect - known_findings.json C19-wiedemann-degenerate-zero - not part of the contract)
+SparseDetOK(e) == ~Panicked(e) /\ e.res = ExpDet(e)
 DetP4OK(e) == /\ ~Panicked(e)
-              /\ \A i \in 1..4 : e.res[i] = IMod(ExpDet(e), e.primes[i]) \/ e.res[i] = <<>>
+              /\ \A i \in 1..4 : e.res[i] = IMod(ExpDet(e), e.primes[i])
 Degenerate(e) == /\ ~Panicked(e)
                  /\ IF e.op = "detp4" THEN \E i \in 1..4 : e.res[i] = <<>> /\ IMod(ExpDet(e), e.primes[i]) # <<>>
                     ELSE e.res = IZero /\ ExpDet(e) # IZero
@@ -167,7 +169,7 @@ WitnessOK(e) ==
 \* no verdict: announced refusals and the Wiedemann degenerate case
 NoDrift(e) ==
   CASE e.op \in {"lattice_dense", "lattice_sparse", "snf"} -> ~Refused(e)
-    [] e.op \in {"det_sparse", "detp4"} -> ~Degenerate(e)
+    [] e.op \in {"det_sparse", "detp4"} -> TRUE
     [] OTHER -> TRUE
 
 Init == l = 1
